@@ -13,7 +13,7 @@ print(f"""You are testing how well a hidden verification suite detects regressio
 Property that the library must satisfy (call it {pid}):
 «{text}»
 
-Task: produce TWO different, independent source changes (mutants m1 and m2) to the library (non-test .go files only), each of which BREAKS this property while (a) the code still compiles (`go build ./...`) and (b) the existing test suite still passes exactly as before. Run at least the tests of the touched package and of the packages that depend on it: `cd /tmp/seed/{pid} && GOFLAGS=-mod=mod GOPROXY=off go test -vet=off -count=1 ./<pkg>/...` (ideally `./...`, about 1 minute). Do NOT set GOTOOLCHAIN or GOSUMDB. In package tls the 22 subtests of TestCipherSuitesBadSSL fail even on the unchanged tree because there is no network — ignore exactly those failures. Prefer changes that need something specific to manifest — a particular interleaving, a fault at a particular point, a multi-step sequence of operations, an unusual input, or two cooperating sites that each look fine alone — not ones that ordinary use would expose at once. Keep them realistic and small (a few lines): something a maintainer could plausibly write in a refactor or an 'optimisation' (off-by-one, wrong comparison, dropped check, wrong variable, reordered steps, missing lock, stale cache, wrong default). The two mutants should break the property in different ways / at different sites.
+Task: produce TWO different, independent source changes (mutants m1 and m2) to the library (non-test .go files only), each of which BREAKS this property while (a) the code still compiles (`go build ./...`) and (b) the existing test suite still passes exactly as before. Run at least the tests of the touched package and of the packages that depend on it: `cd /tmp/seed/{pid} && GOFLAGS=-mod=mod GOPROXY=off go test -vet=off -count=1 ./<pkg>/...` (ideally `./...`, about 1 minute). Do NOT set GOTOOLCHAIN or GOSUMDB. Do NOT use `git stash` (the stash is shared by all worktrees of the repository and other workers use it concurrently): switch between the changed and unchanged tree with `git diff > p.diff`, `git apply -R p.diff`, `git apply p.diff`. In package tls the 22 subtests of TestCipherSuitesBadSSL fail even on the unchanged tree because there is no network — ignore exactly those failures. Prefer changes that need something specific to manifest — a particular interleaving, a fault at a particular point, a multi-step sequence of operations, an unusual input, or two cooperating sites that each look fine alone — not ones that ordinary use would expose at once. Keep them realistic and small (a few lines): something a maintainer could plausibly write in a refactor or an 'optimisation' (off-by-one, wrong comparison, dropped check, wrong variable, reordered steps, missing lock, stale cache, wrong default). The two mutants should break the property in different ways / at different sites.
 
 For each mutant deliver a directory /tmp/seed/{pid}-out/m1 (resp. m2) containing: `patch.diff` (output of `git diff` in the worktree with ONLY that mutant applied; library files only — the demo must NOT be in it), a demonstration (`demo_test.go` to be dropped into a package directory, or a small `main.go` program) that FAILS with the mutant applied and PASSES on the unchanged tree — run it both ways and save the outputs as `demo_with.txt` and `demo_without.txt`; `tests_with.txt` (the existing-suite run with the mutant applied, showing it still passes); and `meta.json` = {{"property": "{pid}", "summary": "<what was changed>", "files": ["..."], "needs": "<what specific input / operation sequence / interleaving / configuration is needed for the breakage to manifest>", "demo_kind": "test|program", "demo_dir": "<repo-relative directory the demo file must be placed in>", "demo_cmd": "<command, run from the repo root, that runs only the demo>"}}. After finishing each mutant restore the worktree (`git checkout -- . && git clean -fdq` inside /tmp/seed/{pid} only) before starting the next, and leave it clean at the end. Verify patch.diff applies cleanly to a clean worktree with `git apply --check`.
 
